@@ -465,7 +465,7 @@ func (d Decimal) Int(i *big.Int) *big.Int {
 	}
 
 	if exp < -maxDigits {
-		return i
+		return i.SetUint64(0)
 	}
 
 	if sig[1] == 0 {
